@@ -94,13 +94,49 @@ class Scheduler:
         m.steps += 1
         m.parked.clear()
         m.go.release()
-        if not m.parked.wait(timeout=self.block_timeout):
+        if not m.parked.wait(timeout=self.block_timeout) and not self._wait_unless_blocked(m):
             # it is waiting for a lock held by a parked thread: it will park by itself once that lock is freed
             m.blocked = True
             self.log.append((name, 'BLOCKED'))
             return 'BLOCKED'
         self.log.append((name, m.at))
         return m.at
+
+    @staticmethod
+    def _os_state(m):
+        """(kernel scheduling state, cpu ticks) of a managed thread, or None when /proc cannot tell."""
+        try:
+            with open('/proc/self/task/%d/stat' % m.thread.native_id) as f:
+                rest = f.read().rsplit(')', 1)[1].split()
+            return rest[0], int(rest[11]) + int(rest[12])
+        except Exception:
+            return None
+
+    def _wait_unless_blocked(self, m):
+        """The released thread did not park within block_timeout. On a loaded machine that does not mean it waits
+        for a lock: it may simply not have been given a CPU. Keep waiting while the kernel reports it runnable or
+        its CPU time advances; call it blocked only after it has been asleep without progress for several samples.
+        Returns True when it parked after all."""
+        import time
+        deadline = time.time() + self.timeout
+        asleep = 0
+        last = self._os_state(m)
+        if last is None:
+            return False
+        while time.time() < deadline:
+            if m.parked.wait(timeout=0.01):
+                return True
+            cur = self._os_state(m)
+            if cur is None:
+                return m.parked.is_set()
+            if cur[0] == 'S' and cur[1] == last[1]:
+                asleep += 1
+                if asleep >= 6:
+                    return m.parked.is_set()
+            else:
+                asleep = 0
+            last = cur
+        return m.parked.is_set()
 
     def enabled(self):
         """Threads that can be released now (parked at a point, not finished, not waiting for a lock)."""
@@ -149,11 +185,14 @@ def explore(make_run, max_preemptions=2, max_runs=None, should_stop=None):
     finish(sched, schedule) is called when all threads are done and returns the run's result.
     Yields (schedule, result) per run. A schedule is the list of thread names chosen at each step.
     """
-    # DFS over choice prefixes; each entry: list of thread names (the forced prefix)
-    stack = [[]]
+    # Breadth-first over choice prefixes (each entry: list of thread names, the forced prefix): first the default
+    # schedule, then every schedule that deviates from it once, then twice ... - under a run cap the schedules that
+    # need the fewest forced switches (which is what most races need) are all visited before any deeper combination
+    import collections
+    stack = collections.deque([[]])
     seen = 0
     while stack:
-        prefix = stack.pop()
+        prefix = stack.popleft()
         sched, finish = make_run()
         schedule = []
         current = None
@@ -191,5 +230,5 @@ def explore(make_run, max_preemptions=2, max_runs=None, should_stop=None):
             return
         if should_stop is not None and should_stop():
             return
-        for (idx, alt) in reversed(branch_points):
+        for (idx, alt) in branch_points:
             stack.append(schedule[:idx] + [alt])
